@@ -12,6 +12,9 @@ BINARIES = {
     "h_rt": ("h_rt", ["h_rt.c"] + FB),
     "h_sleep": ("h_sleep", ["h_sleep.c"] + FB),
     "h_join": ("h_join", ["h_join.c"] + FB),
+    "h_chan": ("h_chan", ["h_chan.c"] + FB),
+    "h_io": ("h_io", ["h_io.c"] + FB),
+    "h_ctx": ("h_ctx", ["h_ctx.c", "ctx_shim.S"] + RT),
 }
 
 ASSUME_COMMON = [
@@ -363,8 +366,105 @@ def c04(tier, seed):
                 assumptions=ASSUME_COMMON + ["no handle use after a successful join/tryjoin/detach of a finished fiber (user UB, not generated)"])
 
 
+def c11(tier, seed):
+    q = tier == "quick"
+    runs = []
+    stalls = {"bounded": ["RB_PUSH_MID", "SIGNAL_WAIT_REGISTERED", "MAINT_PUBLISH"], "unbounded": ["MPSC_MID", "SIGNAL_WAIT_REGISTERED", "MAINT_PUBLISH"],
+              "sp": ["SPSC_MID", "SIGNAL_WAIT_REGISTERED"], "multi": ["WAIT_MPSC_PRE_PUSH", "MAINT_PUBLISH", "SWITCH_PRE"], "signal": ["SIGNAL_WAIT_REGISTERED", "MAINT_PUBLISH", "SCHEDULED"]}
+    for i, sub in enumerate(["bounded", "unbounded", "sp", "multi", "signal"]):
+        runs += fb_plan(tier, seed + i * 101, "h_chan", sub, stalls[sub], 8, 60, threads_q=(1, 2, 4, 16), extra=dict(livelock_prop="C11"),
+                        stall_every=4, tsan=(sub in ("bounded", "unbounded")), pinned=(sub == "bounded"))
+    return dict(runs=runs,
+                rule="a case = one channel life: seeded capacity 2..16, 1..16 senders (1 for the single-producer channel) x 50..450 unique messages, "
+                "receivers as the type allows (1; 1..6 for the multi channel), with or without a ready signal, or 200..1000 raise/wait ping-pong "
+                "rounds on raw signals. Oracles: phantom/duplicate/loss/per-sender order at each receiver, sends returned minus receives invoked "
+                "<= capacity, payload checksum on plain memory (TSan), waits returned <= raises begun, stranded peer at logical quiescence.",
+                min_events={"chan_messages_sent": 5000, "chan_receives_that_slept": 100, "chan_sends_that_filled_the_buffer": 10, "lib_signal_spin_count": 1,
+                            "SIGNAL_WAIT_REGISTERED": 100},
+                assumptions=ASSUME_COMMON + ["one receiver per single-consumer channel, one waiter per fiber_signal (documented contract)"])
+
+
+def c20(tier, seed):
+    runs = ds_plan(tier, seed, ["lifo", "dist", "stack"], ["CAS2_PRE"], ([2, 4, 8], [2, 3, 4, 8, 16]), rounds_q=60, rounds_t=600, ops=2000)
+    runs += fb_plan(tier, seed + 7, "h_chan", "msignal", ["CAS2_PRE", "SIGNAL_WAIT_REGISTERED", "MAINT_PUBLISH", "SCHEDULED"], 16, 120,
+                    extra=dict(livelock_prop="C20"), stall_every=4)
+    return dict(runs=runs,
+                rule=HIST_RULE + "LIFO: every popped node is re-pushed at once (ABA pressure), ghost owner word per node, LIFO definite-inversion rule, "
+                "conservation after a drain; dist FIFO: one pusher, 1..15 poppers, nodes handed back for reuse, real-time FIFO and per-popper order; "
+                "flushable stack: each node in exactly one flush result, per-producer order inside a list. Multi-signal (fibers): exact ping-pong "
+                "(one wait returns per raise) and storm modes; waits returned <= raises begun, raises that report a wake == waits that slept.",
+                min_events={"lifo_node_reused_immediately": 100, "dist_pop_retry_cas2_lost": 1, "stack_flush_calls": 100, "msignal_raises_that_woke": 100,
+                            "msignal_raises_remembered_or_coalesced": 10, "CAS2_PRE": 1000},
+                assumptions=ASSUME_COMMON + ["dist_fifo nodes are never freed while poppers run (documented assumption of the structure)"])
+
+
+def c19(tier, seed):
+    q = tier == "quick"
+    runs = []
+    k = 0
+    for be in ("asm", "uc"):
+        for st in ("mmap", "malloc", "split"):
+            for suffix in ("", "_dbg"):
+                k += 1
+                runs.append(Run("ctx_%s_%s%s" % (be, st, suffix), BINARIES["h_ctx"], dict(sub="ctx", seed=S(seed, k), threads=2, trials=12 if q else 120),
+                                cpu=1, timeout=400, tag="ctx"))
+        k += 1
+        runs.append(Run("ctx_%s_malloc_asan" % be, BINARIES["h_ctx"], dict(sub="ctx", seed=S(seed, k), threads=2, trials=10 if q else 60), cpu=1, timeout=400, tag="ctx"))
+    return dict(runs=runs,
+                rule="a case = one trial: 2..63 contexts with stack sizes from {16K,20000,37035,64K,100000,1M}, a random switch graph of 3000 checked "
+                "swaps (into fresh contexts, back to main, chains), every third trial continued by a second kernel thread; matrix {assembly, ucontext} "
+                "x {mmap, malloc, split} x {NDEBUG, asserts} plus ASan on malloc stacks. Oracle: an assembly shim plants random values in rbx, rbp, "
+                "r12-r15 before calling the real fiber_context_swap and compares them, rsp and a 48-word stack canary on resumption; an entry stub "
+                "records rsp and rdi of every fresh context ((rsp+8)%16==0, argument, rsp inside its own stack); stacks disjoint; mmap/munmap "
+                "interposed (each stack released once with its own length, none left), address-space growth bound for the other strategies.",
+                min_events={"ctx_checked_swaps": 100000, "ctx_fresh_context_entries": 500, "ctx_resumed_on_other_thread": 100, "ctx_destroyed": 500},
+                assumptions=ASSUME_COMMON + ["x87/MXCSR control words are not part of the statement and not checked; i386 is not built"])
+
+
+def c08(tier, seed):
+    q = tier == "quick"
+    runs = []
+    k = 0
+    for thr in ((1, 2, 4, 16) if q else (1, 2, 3, 4, 8, 16)):
+        for mode in ("monitor", "jitter"):
+            k += 1
+            runs.append(fb("h_io", "mon", "io", seed, k, thr, mode=mode, trials=14 if q else 100, big=0 if q else 1, livelock_prop="C08", timeout=600))
+    for sp in ("FD_WAIT_REGISTERED", "MAINT_PUBLISH", "SCHEDULED", "SWITCH_PRE", "STEAL"):
+        for thr in ((4,) if q else (2, 8)):
+            k += 1
+            runs.append(fb("h_io", "mon", "io", seed, k, thr, mode="stall", stall_point=sp, stall_every=5, stall_us_lo=50, stall_us_hi=1500,
+                           trials=8 if q else 50, big=0, livelock_prop="C08", timeout=600))
+    for variant in ("asan", "asan_ndebug", "dbg"):
+        for thr in ((4,) if q else (1, 8)):
+            k += 1
+            runs.append(fb("h_io", variant, "io", seed, k, thr, mode="jitter", trials=12 if q else 60, big=0, livelock_prop="C08", timeout=600))
+        k += 1
+        runs.append(fb("h_io", variant, "io", seed, k, 2, mode="monitor", trials=6, scenario=3, livelock_prop="C08"))
+    if not q:
+        k += 1
+        runs.append(fb("h_io", "pinned", "io", seed, k, 8, mode="jitter", trials=60, livelock_prop="C08", timeout=600))
+    return dict(runs=runs,
+                rule="a case = one trial of one scenario: (0) 1-4 connections (socketpair / pipe / loopback TCP, buffers optionally shrunk) each carrying "
+                "self-describing byte streams of 1 B..1.5 MB in both directions through random read/recv/readv/recvfrom/recvmsg and "
+                "write/send/writev/sendto/sendmsg calls with random sizes, next to a ticker; (1) EOF after close; (2) the five ways of making a call "
+                "non-blocking (and back); (3) invalid descriptors {-1,-7,closed,rlim_max,rlim_max+5,2^20,INT_MAX} through eight calls; (4) close while "
+                "1-3 readers are blocked; (5) 2-4 acceptors x connectors on one listening socket and 2-5 receivers on one datagram socket; (6) connect "
+                "to a dead port. Oracles: stream position-exact (complete, ordered, unduplicated, never empty), no EAGAIN in blocking mode, non-blocking "
+                "calls do not context-switch, invalid descriptors give EBADF (ASan with and without NDEBUG for the fd tables), datagrams exactly once, "
+                "blocked fibers resumed (quiescence), ticker progress.",
+                min_events={"io_stream_bytes_transferred": 100000, "io_calls_that_suspended_the_fiber": 100, "io_nonblocking_probes": 3,
+                            "io_invalid_descriptor_probes": 50, "io_readers_woken_by_close": 2, "io_connections_accepted_with_several_acceptors": 10,
+                            "io_datagrams_with_several_receivers": 100, "io_short_writes": 1},
+                assumptions=ASSUME_COMMON + ["only AF_UNIX / AF_INET loopback sockets and pipes; kernel-dependent short-count sizes are not compared",
+                                             "callers read errno through a fresh __errno_location() after a blocking call (a fiber may migrate)"])
+
+
 CHECKS = {
     "C01": c01,
+    "C08": c08,
+    "C19": c19,
+    "C11": c11,
+    "C20": c20,
     "C04": c04,
     "C09": c09,
     "C03": c03,
